@@ -296,7 +296,11 @@ impl<'a, T: QueryToRelationTranslator + Copy + Clone> VisitedQueryRelations<'a, 
                     })
                     .dedup()
                     .collect::<Vec<_>>();
-                assert_eq!(tables.len(), 2);
+                if tables.len() != 2 {
+                    return Err(Error::other(
+                        "A NATURAL JOIN of more than two relations is not supported",
+                    ));
+                }
                 let columns_1 = columns.filter(tables[0].as_slice());
                 let columns_2 = columns.filter(tables[1].as_slice());
                 let columns_1 = columns_1
